@@ -17,6 +17,8 @@ import (
 	"strconv"
 	"strings"
 	"sync"
+	"sync/atomic"
+	"syscall"
 	"testing"
 	"time"
 
@@ -75,7 +77,7 @@ type checkStats struct {
 	Exhaustive   bool              `json:"exhaustive,omitempty"`
 	Extra        map[string]any    `json:"extra,omitempty"`
 	hashSet      map[uint64]struct{}
-	ShrinkPhase  bool `json:"-"`
+	ShrinkPhase  bool            `json:"-"`
 	KnownPrinted map[string]bool `json:"-"`
 }
 
@@ -181,6 +183,9 @@ func Main(m *testing.M) {
 	os.RemoveAll("testdata/rapid")
 	code := m.Run()
 	writeStats()
+	if n := atomic.LoadInt64(&SlowCases); n > 0 {
+		fmt.Fprintf(Stdout, "VERIF-NOTE %d case(s) returned after their watchdog period on a busy machine (not failures)\n", n)
+	}
 	fmt.Fprintf(Stdout, "VERIF-DONE code=%d\n", code)
 	os.Exit(code)
 }
@@ -244,6 +249,18 @@ func statsFor(property, name, rule string) *checkStats {
 
 // guarded runs f under the watchdog and converts a panic on the calling goroutine into an
 // error. ok=false means the call did not return in time.
+//
+// The watchdog is not a plain wall-clock limit: on a busy machine (other checks, other
+// campaigns on the same cores) a case that needs a second of processor time may take many
+// seconds of wall time, and a time budget hit is never a violation. After d of wall time the
+// call is declared stuck only when this process itself has consumed most of d in processor
+// time since the call began (a loop that does not end), or when hardFactor*d of wall time
+// (d plus five minutes for the long watchdogs) has passed (a deadlock, which consumes
+// nothing). A case that returns after d but before that is counted in SlowCases.
+const hardFactor = 6
+
+var SlowCases int64
+
 func guarded(f func() error, d time.Duration) (err error, ok bool) {
 	done := make(chan error, 1)
 	go func() {
@@ -254,14 +271,37 @@ func guarded(f func() error, d time.Duration) (err error, ok bool) {
 		}()
 		done <- f()
 	}()
+	start, cpu0 := time.Now(), processCPU()
 	timer := time.NewTimer(d)
 	defer timer.Stop()
-	select {
-	case err = <-done:
-		return err, true
-	case <-timer.C:
-		return nil, false
+	for {
+		select {
+		case err = <-done:
+			if time.Since(start) >= d {
+				atomic.AddInt64(&SlowCases, 1)
+			}
+			return err, true
+		case <-timer.C:
+			wall := time.Since(start)
+			hard := hardFactor * d
+			if d > time.Minute {
+				hard = d + 5*time.Minute
+			}
+			if used := processCPU() - cpu0; used >= d*8/10 || wall >= hard {
+				return nil, false
+			}
+			timer.Reset(d / 8)
+		}
 	}
+}
+
+// processCPU is the processor time (user + system) consumed by this process so far.
+func processCPU() time.Duration {
+	var ru syscall.Rusage
+	if syscall.Getrusage(syscall.RUSAGE_SELF, &ru) != nil {
+		return 0
+	}
+	return time.Duration(ru.Utime.Nano() + ru.Stime.Nano())
 }
 
 func trimStack(b []byte) string {
@@ -566,7 +606,7 @@ func (r *Recorder) Journal(c any) {
 }
 func (r *Recorder) JournalClear() { journalClear() }
 
-func (r *Recorder) Exhaustive()          { r.st.Exhaustive = true }
+func (r *Recorder) Exhaustive()           { r.st.Exhaustive = true }
 func (r *Recorder) Extra(k string, v any) { r.st.Extra[k] = v }
 func (r *Recorder) Excluded(id string)    { r.st.Excluded[id]++ }
 
